@@ -889,7 +889,7 @@ func TestC15Discipline(t *testing.T) {
 		rep.Cap(fmt.Sprintf("%d executions hit the announce budget (depth+%d) without any oracle having fired", tot.OverNV, announceSlack))
 	}
 	if !crashed && (tot.Stats[2] == 0 || tot.Stats[1] == 0 || tot.Stats[5] == 0 || tot.Stats[4] <= tot.Executed) {
-		core.HarnessError("vacuous: %+v", tot)
+		rep.Vacuous("vacuous: %+v", tot)
 	}
 	agg.flush(rep)
 	stopAnnouncerPart(t, rep)
@@ -1092,6 +1092,6 @@ func stopAnnouncerPart(t *testing.T, rep *core.Report) {
 	rep.Extra["stop_announces_checked"] = nStopped
 	rep.Extra["stop_runs_that_ended_exactly_at_the_timeout"] = nAtTimeout
 	if nStopped == 0 || nAtTimeout == 0 {
-		core.HarnessError("vacuous StopAnnouncer part")
+		rep.Vacuous("vacuous StopAnnouncer part")
 	}
 }
